@@ -100,6 +100,15 @@ def cases(spec, ctx):
                 b1, b2 = sorted(srng.sample(inner, 2))
                 win = ((srng.randint(b1[0] + 1, b1[1] - 1), srng.randint(b2[0] + 1, b2[1] - 1)),)
                 blocks, qblocks = win, blocks
+        if k % 4 == 3:
+            # nested layout: one enclosing block with many short blocks inside it; the query's blocks lie in the enclosing block only, each
+            # behind one of the short blocks (many x many blocks, and only the enclosing block overlaps the query)
+            m = srng.choice([12, 20, 41, 61, 120])
+            step = srng.choice([12, 20])
+            blocks = tuple(sorted([(0, step * m + step)] + [(step * j + srng.randint(2, 5), step * j + srng.randint(6, 8)) for j in range(m)]))
+            picks = sorted(srng.sample(range(m), min(m, srng.choice([1, 4, 12, 30, 60]))))
+            qblocks = tuple((step * j + 9, step * j + 11) for j in picks)
+            g = step * m + step
         yield {"kind": "random", "blocks": blocks, "strand": srng.choice("+-"), "genome": g, "parent": srng.choice(modes),
                "q": qblocks, "qstrand": srng.choice("+-."), "seed": srng.randrange(1 << 30), "scale": "many-blocks"}
     for k in range(sc["NR"] // (8 * n) + 1):
@@ -212,29 +221,60 @@ def check_parent_location(ctx, loc, P, lstrand, qloc, Q, qstrand, l_overlapping,
                   opt=opt, got=got, got_strand=gst, want_strand=wst, shared=shared)
 
 
-def check_feature_wrappers(ctx, blocks, strand, P):
+def _wrapper_parents(blocks, genome):
+    """(label, parent) for the feature wrappers: no parent, the whole chromosome, and sequence chunks that hold the feature, cut it, or lie
+    next to it (nothing of the feature is on that chunk: its chromosome coordinates still hold).  Two of the four parented modes per layout,
+    chosen by the content."""
+    from inscripta.biocantor.io.parser import seq_chunk_to_parent, seq_to_parent
+
+    lo, hi = min(b[0] for b in blocks), max(b[1] for b in blocks)
+    glen = max(genome, hi) + 2
+    seq = ("ACGTTGCAAGGCTTAACCGGATATCGCG" * (glen // 28 + 1))[:glen]
+    modes = [("chromosome", lambda: seq_to_parent(seq, seq_id="chr1"))]
+
+    def chunk(cs, ce):
+        return lambda: seq_chunk_to_parent(seq[cs:ce], "chr1", cs, ce)
+
+    modes.append(("chunk-holds", chunk(max(0, lo - 1), min(glen, hi + 1))))
+    if hi - lo >= 2:
+        modes.append(("chunk-cuts", chunk(lo + 1, hi - (1 if hi - lo >= 3 else 0))))
+    if lo >= 1:
+        modes.append(("chunk-beside", chunk(0, lo)))
+    elif hi < glen:
+        modes.append(("chunk-beside", chunk(hi, glen)))
+    r = (sum(b[0] + b[1] for b in blocks) + len(blocks)) % len(modes)
+    yield "none", None
+    for label, mk in (modes[r:] + modes[:r])[:2]:
+        yield label, mk()
+
+
+def check_feature_wrappers(ctx, blocks, strand, P, genome=0):
     from inscripta.biocantor.gene import FeatureInterval
 
     if not P:
         return
-    ft = FeatureInterval([b[0] for b in blocks], [b[1] for b in blocks], G.strand_of(strand))
     n = len(P)
-    ok = True
-    bad = None
-    for i in range(n):
-        a, e1 = ctx.call(ft.feature_pos_to_sequence, i)
-        b, e2 = ctx.call(ft.sequence_pos_to_feature, P[i])
-        if e1 or e2 or a != P[i] or b != i:
-            ok, bad = False, ("point", i, a, b, repr(e1 or e2))
-    ctx.check("map.feature-wrappers", ok, key="points", bad=bad)
-    for (s, e) in ((0, n), (0, 1), (n - 1, n), (n // 3, max(n // 3 + 1, 2 * n // 3))):
-        res, exc = ctx.call(ft.feature_interval_to_sequence, s, e, G.strand_of("+"))
-        got = _enum(res)[0] if exc is None else None
-        ctx.check("map.feature-wrappers", got == P[s:e], key="interval-to-seq", s=s, e=e, got=got, want=P[s:e], exc=repr(exc) if exc else None)
-    lo, hi = min(P), max(P) + 1
-    res, exc = ctx.call(ft.sequence_interval_to_feature, lo, hi, G.strand_of("+"))
-    got = sorted(_enum(res)[0]) if exc is None else None
-    ctx.check("map.feature-wrappers", got == list(range(n)), key="seq-interval-to-feature", got=got, n=n, exc=repr(exc) if exc else None)
+    for label, parent in _wrapper_parents(blocks, genome):
+        ft, exc = ctx.call(FeatureInterval, [b[0] for b in blocks], [b[1] for b in blocks], G.strand_of(strand), parent_or_seq_chunk_parent=parent)
+        if exc is not None:
+            ctx.check("map.feature-wrappers", False, key=("construct", label), exc=repr(exc)[:200])
+            continue
+        ok = True
+        bad = None
+        for i in range(n):
+            a, e1 = ctx.call(ft.feature_pos_to_sequence, i)
+            b, e2 = ctx.call(ft.sequence_pos_to_feature, P[i])
+            if e1 or e2 or a != P[i] or b != i:
+                ok, bad = False, ("point", i, a, b, repr(e1 or e2))
+        ctx.check("map.feature-wrappers", ok, key=("points", label), bad=bad)
+        for (s, e) in ((0, n), (0, 1), (n - 1, n), (n // 3, max(n // 3 + 1, 2 * n // 3))):
+            res, exc = ctx.call(ft.feature_interval_to_sequence, s, e, G.strand_of("+"))
+            got = _enum(res)[0] if exc is None else None
+            ctx.check("map.feature-wrappers", got == P[s:e], key=("interval-to-seq", label), s=s, e=e, got=got, want=P[s:e], exc=repr(exc) if exc else None)
+        lo, hi = min(P), max(P) + 1
+        res, exc = ctx.call(ft.sequence_interval_to_feature, lo, hi, G.strand_of("+"))
+        got = sorted(_enum(res)[0]) if exc is None else None
+        ctx.check("map.feature-wrappers", got == list(range(n)), key=("seq-interval-to-feature", label), got=got, n=n, exc=repr(exc) if exc else None)
 
 
 def check_derived(ctx, loc, blocks, strand, ov):
@@ -299,7 +339,7 @@ def run_case(case, ctx):
             res, exc = ctx.call(loc.relative_interval_to_parent_location, s, e, G.strand_of("+"))
             ctx.check("map.rel-interval", isinstance(exc, _reject_types()), key="reject-invalid", s=s, e=e, n=n, got=repr(res))
         if all(b[1] >= b[0] for b in blocks) and (case.get("compound") or len(blocks) > 1):
-            check_feature_wrappers(ctx, blocks, strand, P)
+            check_feature_wrappers(ctx, blocks, strand, P, case.get("genome", 0))
         check_derived(ctx, loc, blocks, strand, ov)
         return
 
